@@ -1,1 +1,826 @@
-//! C27: not implemented yet.
+//! C27 — Server cookie keys persist safely across restarts and crashes (ntpd part).
+//!
+//! Real-file-system pass against the real `nts_key_provider::spawn` in a scratch directory
+//! `/verif/work/c27-<pid>` (removed at the end). Key sets handed out by the daemon's
+//! provider are USED through the daemon's own public paths only:
+//!   * cookies are issued by a real NTS-KE session (`KeyExchangeServer::handle_connection`
+//!     against `KeyExchangeClient::exchange_keys` over an in-memory duplex, the repository's
+//!     test certificates) — that is where the daemon calls `encode_cookie`;
+//!   * cookies are decoded by a real `ntp_proto::Server::handle` on an NTS request built with
+//!     `NtpPacket::nts_poll_message`; "accepted" = the answer decrypts with the session's s2c
+//!     key and carries a new cookie, "rejected" = NTS NAK. The new cookie is fed back once.
+//!
+//! Scenarios (each one a `spawn` of the real provider task):
+//!   create   no file -> file appears, mode exactly 0600, exactly 20+64 bytes, keys usable
+//!   restart  same file again -> cookies of the first run accepted, key bytes in file unchanged
+//!   multi    file with 3 keys written by a real `KeySetProvider` (history 2, 3 rotations,
+//!            one session per rotation) -> sessions of age <= 2 accepted, age 3 rejected
+//!   rotate   rotation interval 1 s: after the daemon's own rotation the file is copied and a
+//!            restart from the copy accepts the cookies of before and after the rotation
+//!   crash    every prefix of the stored 1-key file (thorough: also of a 2-key file) =
+//!            every crash point after the truncating open -> fresh usable keys, no panic
+//!   corrupt  header faults (primary = n, n+1, 2^32-1; count = 0, n+1, 2^32-1; time = 0,
+//!            2^63, 2^64-1; id offset moved), all-zero file, all-0xff file, flipped key byte,
+//!            over-long garbage, unwritable / missing directory -> fresh or usable keys,
+//!            never a panic in any thread (panics are counted by a process-wide hook;
+//!            the shipped daemon is built with panic=abort).
+//!   After every start on an existing path the file must be exactly the healthy image of
+//!   the key set in use (no stale tail: the daemon's store is truncate-then-write).
+use std::io::{BufReader, Cursor};
+use std::os::unix::fs::PermissionsExt;
+use std::path::{Path, PathBuf};
+use std::sync::atomic::{AtomicU64, Ordering};
+use std::sync::{Arc, Mutex};
+use std::time::{Duration, Instant};
+
+use ntp_proto::{
+    Cipher, FilterAction, FilterList, KeyExchangeClient, KeyExchangeServer, KeySet, KeySetProvider,
+    NtpClock, NtpDuration, NtpLeapIndicator, NtpPacket, NtpTimestamp, NtpVersion, NtsClientConfig,
+    NtsServerConfig, PollIntervalLimits, ProtocolVersion, Server, ServerAction, ServerConfig,
+    ServerReason, ServerResponse, ServerStatHandler,
+};
+
+use super::common::{self, Ctx};
+use crate::daemon::config::KeysetConfig;
+use crate::daemon::nts_key_provider;
+
+// ---------------------------------------------------------------------------------
+// process-wide panic counter (a panic in ANY thread would abort the shipped daemon)
+// ---------------------------------------------------------------------------------
+
+static PANICS: AtomicU64 = AtomicU64::new(0);
+static LAST_PANIC: Mutex<String> = Mutex::new(String::new());
+
+fn install_panic_counter() {
+    let prev = std::panic::take_hook();
+    std::panic::set_hook(Box::new(move |info| {
+        PANICS.fetch_add(1, Ordering::SeqCst);
+        let msg = if let Some(s) = info.payload().downcast_ref::<&str>() {
+            (*s).to_string()
+        } else if let Some(s) = info.payload().downcast_ref::<String>() {
+            s.clone()
+        } else {
+            "<non-string panic>".to_string()
+        };
+        let loc = info.location().map(|l| format!("{}:{}", l.file(), l.line())).unwrap_or_default();
+        // strip the build-specific path prefix so observations are stable
+        let loc = loc.rsplit_once("ntp-proto/").map(|x| format!("ntp-proto/{}", x.1)).unwrap_or(loc);
+        *LAST_PANIC.lock().unwrap() = format!("{msg} @ {loc}");
+        prev(info);
+    }));
+}
+
+fn panics() -> u64 {
+    PANICS.load(Ordering::SeqCst)
+}
+
+fn last_panic() -> String {
+    LAST_PANIC.lock().unwrap().clone()
+}
+
+// ---------------------------------------------------------------------------------
+// using a key set through the daemon's public paths
+// ---------------------------------------------------------------------------------
+
+struct Rig {
+    server: Arc<KeyExchangeServer>,
+    client: KeyExchangeClient,
+}
+
+fn rig() -> Rig {
+    let chain = include_bytes!(concat!(env!("CARGO_MANIFEST_DIR"), "/test-keys/end.fullchain.pem"));
+    let key = include_bytes!(concat!(env!("CARGO_MANIFEST_DIR"), "/test-keys/end.key"));
+    let ca = include_bytes!(concat!(env!("CARGO_MANIFEST_DIR"), "/test-keys/testca.pem"));
+    let certificate_chain = ntp_proto::tls_utils::pemfile::certs(&mut BufReader::new(Cursor::new(&chain[..])))
+        .collect::<std::io::Result<Vec<_>>>()
+        .expect("test certificate chain");
+    let private_key = ntp_proto::tls_utils::pemfile::private_key(&mut BufReader::new(Cursor::new(&key[..]))).expect("test key");
+    let server = KeyExchangeServer::new(NtsServerConfig {
+        certificate_chain,
+        private_key,
+        accepted_versions: vec![NtpVersion::V4],
+        server: None,
+        port: None,
+        pool_authentication_tokens: vec![],
+    })
+    .expect("key exchange server");
+    let ca_certs = ntp_proto::tls_utils::pemfile::certs(&mut BufReader::new(Cursor::new(&ca[..])))
+        .collect::<std::io::Result<Vec<_>>>()
+        .expect("test ca");
+    let client = KeyExchangeClient::new(&NtsClientConfig {
+        certificates: ca_certs.into(),
+        protocol_version: ProtocolVersion::V4,
+    })
+    .expect("key exchange client");
+    Rig { server: Arc::new(server), client }
+}
+
+struct Session {
+    cookies: Vec<Vec<u8>>,
+    c2s: Box<dyn Cipher>,
+    s2c: Box<dyn Cipher>,
+}
+
+/// A real NTS-KE handshake; the server side issues cookies under `keyset`.
+async fn issue(rig: &Rig, keyset: Arc<KeySet>) -> Result<Session, String> {
+    let (a, b) = tokio::io::duplex(1 << 16);
+    let server = rig.server.clone();
+    let before = panics();
+    let srv = tokio::spawn(async move { server.handle_connection(b, &keyset, || None::<()>).await.map(|_| ()) });
+    let res = tokio::time::timeout(Duration::from_secs(60), rig.client.exchange_keys(a, "localhost".to_string(), [])).await;
+    let srv_res = srv.await;
+    if srv_res.as_ref().is_err_and(|e| e.is_panic()) || panics() != before {
+        return Err(format!("panic: NTS-KE connection task panicked while issuing cookies: {}", last_panic()));
+    }
+    match res {
+        Err(_) => Err("error: key exchange timed out".into()),
+        Ok(Err(e)) => Err(format!("error: key exchange failed: {e} (server side: {srv_res:?})")),
+        Ok(Ok(r)) => {
+            let mut nts = *r.nts;
+            let mut cookies = Vec::new();
+            while let Some(c) = nts.get_cookie() {
+                cookies.push(c);
+            }
+            let (c2s, s2c) = nts.get_keys();
+            if cookies.is_empty() {
+                return Err("error: key exchange produced no cookies".into());
+            }
+            Ok(Session { cookies, c2s, s2c })
+        }
+    }
+}
+
+#[derive(Clone, Copy, Debug)]
+struct FixedClock;
+
+impl NtpClock for FixedClock {
+    type Error = std::convert::Infallible;
+    fn now(&self) -> Result<NtpTimestamp, Self::Error> {
+        Ok(NtpTimestamp::default())
+    }
+    fn set_frequency(&self, _: f64) -> Result<NtpTimestamp, Self::Error> {
+        Ok(NtpTimestamp::default())
+    }
+    fn get_frequency(&self) -> Result<f64, Self::Error> {
+        Ok(0.0)
+    }
+    fn step_clock(&self, _: NtpDuration) -> Result<NtpTimestamp, Self::Error> {
+        Ok(NtpTimestamp::default())
+    }
+    fn disable_ntp_algorithm(&self) -> Result<(), Self::Error> {
+        Ok(())
+    }
+    fn error_estimate_update(&self, _: NtpDuration, _: NtpDuration) -> Result<(), Self::Error> {
+        Ok(())
+    }
+    fn status_update(&self, _: NtpLeapIndicator) -> Result<(), Self::Error> {
+        Ok(())
+    }
+}
+
+struct NoStats;
+impl ServerStatHandler for NoStats {
+    fn register(&mut self, _: u8, _: bool, _: ServerReason, _: ServerResponse) {}
+}
+
+#[derive(Debug, Clone, PartialEq, Eq)]
+enum Served {
+    /// authenticated answer carrying this many new cookies (first one returned)
+    Accepted(Vec<u8>),
+    Nak,
+    Other(String),
+    Panic(String),
+}
+
+impl Served {
+    fn short(&self) -> String {
+        match self {
+            Served::Accepted(_) => "accepted".into(),
+            Served::Nak => "nak".into(),
+            Served::Other(s) => format!("other({s})"),
+            Served::Panic(s) => format!("panic({s})"),
+        }
+    }
+}
+
+/// One NTS request with `cookie` handled by a real `Server` that holds `keyset`.
+fn serve(keyset: &Arc<KeySet>, s: &Session, cookie: &[u8]) -> Served {
+    let before = panics();
+    let r = common::catch(|| {
+        let config = ServerConfig {
+            denylist: FilterList { filter: vec![], action: FilterAction::Ignore },
+            allowlist: FilterList {
+                filter: vec!["0.0.0.0/0".parse().unwrap(), "::/0".parse().unwrap()],
+                action: FilterAction::Ignore,
+            },
+            rate_limiting_cache_size: 0,
+            rate_limiting_cutoff: Duration::ZERO,
+            require_nts: None,
+            accepted_versions: vec![NtpVersion::V4],
+        };
+        let mut server = Server::new_internal(config, FixedClock, Arc::default(), keyset.clone());
+        let (packet, _id) = NtpPacket::nts_poll_message(cookie, 1, PollIntervalLimits::default().min);
+        let mut req = [0u8; 1024];
+        let mut cur = Cursor::new(req.as_mut_slice());
+        if let Err(e) = packet.serialize(&mut cur, s.c2s.as_ref(), None) {
+            return Served::Other(format!("cannot build request: {e}"));
+        }
+        let n = cur.position() as usize;
+        let mut out = [0u8; 1024];
+        match server.handle("127.0.0.1".parse().unwrap(), NtpTimestamp::default(), &req[..n], &mut out, &mut NoStats) {
+            ServerAction::Ignore => Served::Other("ignored".into()),
+            ServerAction::Respond { message } => match NtpPacket::deserialize(message, s.s2c.as_ref()) {
+                Err(e) => Served::Other(format!("answer does not parse/decrypt: {e:?}")),
+                Ok((p, _)) => {
+                    if p.is_kiss_ntsn() {
+                        Served::Nak
+                    } else {
+                        match p.new_cookies().next() {
+                            Some(c) => Served::Accepted(c),
+                            None => Served::Other("answer without encrypted cookie".into()),
+                        }
+                    }
+                }
+            },
+        }
+    });
+    match r {
+        Ok(v) if panics() == before => v,
+        Ok(_) => Served::Panic(last_panic()),
+        Err(p) => Served::Panic(p),
+    }
+}
+
+/// Full use of a key set: issue a session, serve its first cookie, serve the cookie that came
+/// back. `Ok(session)` if everything worked.
+async fn use_keyset(rig: &Rig, keyset: &Arc<KeySet>) -> Result<Session, String> {
+    let s = issue(rig, keyset.clone()).await?;
+    match serve(keyset, &s, &s.cookies[0]) {
+        Served::Accepted(next) => match serve(keyset, &s, &next) {
+            Served::Accepted(_) => Ok(s),
+            Served::Panic(p) => Err(format!("panic: {p}")),
+            o => Err(format!("error: cookie handed out by the server is not accepted back: {}", o.short())),
+        },
+        Served::Panic(p) => Err(format!("panic: {p}")),
+        o => Err(format!("error: fresh cookie not accepted: {}", o.short())),
+    }
+}
+
+// ---------------------------------------------------------------------------------
+// driving the real provider task
+// ---------------------------------------------------------------------------------
+
+const FOREVER: usize = 10_000_000_000; // seconds; > now - UNIX_EPOCH so that time=0 files do not rotate
+
+struct Started {
+    keyset: Arc<KeySet>,
+    rx: tokio::sync::watch::Receiver<Arc<KeySet>>,
+    panicked: Option<String>,
+}
+
+/// `spawn` + wait until the first store/send round of the background thread is through.
+async fn start(path: &Path, stale: usize, interval: usize) -> Result<Started, String> {
+    let before = panics();
+    let config = KeysetConfig {
+        stale_key_count: stale,
+        key_rotation_interval: interval,
+        key_storage_path: Some(path.to_str().unwrap().to_string()),
+    };
+    let mut rx = match tokio::time::timeout(Duration::from_secs(60), nts_key_provider::spawn(config)).await {
+        Ok(rx) => rx,
+        Err(_) => return Err("hang: nts_key_provider::spawn did not return within 60 s".into()),
+    };
+    // the background thread stores first, then publishes: `changed` => the store was attempted
+    match tokio::time::timeout(Duration::from_secs(60), rx.changed()).await {
+        Ok(Ok(())) => {}
+        Ok(Err(_)) => return Err("crash: provider thread dropped the channel".into()),
+        Err(_) => return Err("hang: provider thread did not publish a key set within 60 s".into()),
+    }
+    let keyset = rx.borrow_and_update().clone();
+    let panicked = (panics() != before).then(last_panic);
+    Ok(Started { keyset, rx, panicked })
+}
+
+fn mode_of(path: &Path) -> Option<u32> {
+    std::fs::metadata(path).ok().map(|m| m.permissions().mode() & 0o7777)
+}
+
+/// The file must be a complete healthy image: parses with the real loader to n keys and is
+/// exactly 20 + 64 n bytes long (no stale tail from a longer previous file).
+fn file_image(path: &Path) -> Result<(usize, Vec<u8>), String> {
+    let bytes = std::fs::read(path).map_err(|e| format!("cannot read key file: {e}"))?;
+    if bytes.len() < 20 {
+        return Err(format!("key file has only {} bytes", bytes.len()));
+    }
+    let n = u32::from_be_bytes(bytes[16..20].try_into().unwrap()) as usize;
+    match common::catch(|| KeySetProvider::load(&mut Cursor::new(&bytes), 0)) {
+        Ok(Ok(_)) => {}
+        other => return Err(format!("stored key file does not load: {:?}", other.map(|r| r.map(|_| ())))),
+    }
+    if bytes.len() != 20 + 64 * n {
+        return Err(format!("key file has {} bytes but describes {n} keys (= {} bytes): stale tail, store did not truncate", bytes.len(), 20 + 64 * n));
+    }
+    Ok((n, bytes))
+}
+
+// ---------------------------------------------------------------------------------
+// scenarios
+// ---------------------------------------------------------------------------------
+
+struct Env<'a> {
+    ctx: &'a Ctx,
+    rig: Rig,
+    dir: PathBuf,
+    next: std::cell::Cell<u32>,
+}
+
+impl Env<'_> {
+    fn path(&self, name: &str) -> PathBuf {
+        let n = self.next.get();
+        self.next.set(n + 1);
+        self.dir.join(format!("{n:04}-{name}.keys"))
+    }
+}
+
+/// Healthy file written by a real provider: `h` history, `rot` rotations, one session issued
+/// per rotation count. Returns (file bytes, sessions with the rotation they were issued at).
+async fn healthy(env: &Env<'_>, h: usize, rot: usize) -> (Vec<u8>, Vec<(usize, Session)>) {
+    let mut p = KeySetProvider::new(h);
+    let mut sessions = Vec::new();
+    for r in 0..=rot {
+        let s = issue(&env.rig, p.get()).await.expect("harness: key exchange on a healthy provider");
+        sessions.push((r, s));
+        if r < rot {
+            p.rotate();
+        }
+    }
+    let mut bytes = Vec::new();
+    p.store(&mut bytes).expect("store to Vec");
+    (bytes, sessions)
+}
+
+fn class_for_panic(file: Option<&[u8]>, default: &'static str) -> &'static str {
+    // class names follow the fault that was written into the file by the harness
+    if let Some(f) = file {
+        if f.len() >= 20 {
+            let t = u64::from_be_bytes(f[0..8].try_into().unwrap());
+            let primary = u32::from_be_bytes(f[12..16].try_into().unwrap());
+            let len = u32::from_be_bytes(f[16..20].try_into().unwrap());
+            if t > i64::MAX as u64 {
+                return "C27:load-time-overflow";
+            }
+            if primary >= len {
+                return "C27:load-primary-out-of-range";
+            }
+        }
+    }
+    default
+}
+
+#[derive(Clone, Copy, PartialEq, Eq, Debug)]
+enum Expect {
+    /// must start with fresh keys (old cookies rejected)
+    Fresh,
+    /// must restore (old valid cookies accepted)
+    Restored,
+    /// anything, as long as the set is usable (validity of old cookies is not judged)
+    Either,
+}
+
+/// Write `file` (None = no file), start the daemon's provider on it, use the key set, judge.
+/// `old`: sessions issued under the original key set with their expected validity if restored.
+async fn file_case(env: &Env<'_>, kind: &str, name: &str, file: Option<&[u8]>, stale: usize, old: &[(bool, &Session)], expect: Expect) -> String {
+    let ctx = env.ctx;
+    let path = env.path(name);
+    let trace = format!("{kind};{name}");
+    if let Some(f) = file {
+        std::fs::write(&path, f).expect("scratch write");
+    }
+    ctx.inc("evaluations");
+    ctx.inc("daemon_starts");
+    ctx.inc(&format!("{kind}_cases"));
+    let st = match start(&path, stale, FOREVER).await {
+        Ok(s) => s,
+        Err(e) => {
+            ctx.violation("C27:daemon-start-fails", format!("{name}: {e}"), trace);
+            return format!("start: {e}");
+        }
+    };
+    let mut obs = String::new();
+    if let Some(p) = &st.panicked {
+        ctx.violation(
+            class_for_panic(file, "C27:load-panic"),
+            format!("{name}: a thread panicked while the key provider started ({p}); only the test profile's unwinding turns this into a fallback, the shipped daemon (panic=abort) dies at start-up"),
+            trace.clone(),
+        );
+        obs.push_str(&format!("start-panic({p}) "));
+    }
+    // use the key set the daemon would hand to its server / NTS-KE tasks
+    match use_keyset(&env.rig, &st.keyset).await {
+        Ok(_) => {
+            ctx.inc("keysets_used_ok");
+            obs.push_str("usable ");
+        }
+        Err(e) if e.starts_with("panic") => {
+            ctx.violation(
+                class_for_panic(file, "C27:loaded-set-unusable"),
+                format!("{name}: the key set published by the provider crashes the task that uses it: {e}"),
+                trace.clone(),
+            );
+            obs.push_str(&format!("use-{e} "));
+            return obs;
+        }
+        Err(e) => {
+            ctx.violation("C27:loaded-set-unusable", format!("{name}: {e}"), trace.clone());
+            obs.push_str(&format!("use-{e} "));
+            return obs;
+        }
+    }
+    // old cookies
+    let mut acc = 0;
+    let mut rej = 0;
+    let mut wrong = Vec::new();
+    for (i, (valid_if_restored, s)) in old.iter().enumerate() {
+        let r = serve(&st.keyset, s, &s.cookies[1 % s.cookies.len()]);
+        match &r {
+            Served::Accepted(_) => acc += 1,
+            Served::Nak => rej += 1,
+            o => {
+                ctx.violation(
+                    if matches!(o, Served::Panic(_)) { class_for_panic(file, "C27:loaded-set-unusable") } else { "C27:loaded-set-unusable" },
+                    format!("{name}: serving a pre-restart cookie: {}", o.short()),
+                    trace.clone(),
+                );
+            }
+        }
+        if matches!(r, Served::Accepted(_)) != *valid_if_restored {
+            wrong.push(i);
+        }
+    }
+    let restored = wrong.is_empty() && old.iter().any(|o| o.0);
+    let fresh = acc == 0;
+    obs.push_str(&format!("old-accepted={acc} old-rejected={rej} "));
+    if restored {
+        ctx.inc("starts_restored");
+    } else if fresh {
+        ctx.inc("starts_fresh");
+    }
+    let ok = match expect {
+        Expect::Fresh => fresh,
+        Expect::Restored => restored,
+        Expect::Either => true,
+    };
+    if !ok && !old.is_empty() {
+        ctx.violation(
+            match expect {
+                Expect::Restored => "C27:restart-loses-keys",
+                Expect::Fresh => "C27:crash-prefix-loads-other-set",
+                Expect::Either => "C27:loaded-set-decodes-partially",
+            },
+            format!("{name}: expected {expect:?}; {acc} old cookies accepted, {rej} rejected, unexpected at sessions {wrong:?}"),
+            trace.clone(),
+        );
+    }
+    // the file after the start: complete healthy image of the key set in use
+    match file_image(&path) {
+        Ok((n, bytes)) => {
+            obs.push_str(&format!("file={}B/{n}keys ", bytes.len()));
+            if let (true, Some(f)) = (restored, file) {
+                if f.len() < bytes.len() || bytes[8..] != f[8..bytes.len()] {
+                    ctx.violation("C27:restart-rewrites-other-keys", format!("{name}: restored, but the re-stored file differs from the loaded one"), trace.clone());
+                }
+            }
+        }
+        Err(e) => {
+            ctx.violation("C27:store-leaves-bad-file", format!("{name}: after the start {e}"), trace.clone());
+            obs.push_str("file=bad ");
+        }
+    }
+    if file.is_none() {
+        let mode = mode_of(&path);
+        obs.push_str(&format!("mode={:o} ", mode.unwrap_or(0)));
+        ctx.inc("created_files");
+        if mode != Some(0o600) {
+            ctx.violation(
+                "C27:key-file-mode",
+                format!("{name}: newly created key file has mode {:o}, expected exactly 600", mode.unwrap_or(0)),
+                trace.clone(),
+            );
+        } else {
+            ctx.inc("created_files_mode_0600");
+        }
+    }
+    ctx.distinct(common::hash_of(&(kind, name)));
+    obs
+}
+
+fn with_hdr(f: &[u8], time: Option<u64>, off: Option<u32>, primary: Option<u32>, len: Option<u32>) -> Vec<u8> {
+    let mut f = f.to_vec();
+    if let Some(t) = time {
+        f[0..8].copy_from_slice(&t.to_be_bytes());
+    }
+    if let Some(o) = off {
+        f[8..12].copy_from_slice(&o.to_be_bytes());
+    }
+    if let Some(p) = primary {
+        f[12..16].copy_from_slice(&p.to_be_bytes());
+    }
+    if let Some(l) = len {
+        f[16..20].copy_from_slice(&l.to_be_bytes());
+    }
+    f
+}
+
+/// The named corrupt-file classes, built from a healthy n-key image.
+fn corrupt_classes(f: &[u8]) -> Vec<(String, Vec<u8>, Expect)> {
+    let n = u32::from_be_bytes(f[16..20].try_into().unwrap());
+    let mut v: Vec<(String, Vec<u8>, Expect)> = Vec::new();
+    v.push((format!("primary={n}(=count)"), with_hdr(f, None, None, Some(n), None), Expect::Either));
+    v.push((format!("primary={}", n + 1), with_hdr(f, None, None, Some(n + 1), None), Expect::Either));
+    v.push(("primary=4294967295".into(), with_hdr(f, None, None, Some(u32::MAX), None), Expect::Either));
+    v.push(("primary=0".into(), with_hdr(f, None, None, Some(0), None), Expect::Either));
+    v.push(("count=0,primary=0".into(), with_hdr(f, None, None, Some(0), Some(0)), Expect::Either));
+    v.push((format!("count={}", n - 1), with_hdr(f, None, None, None, Some(n - 1)), Expect::Either));
+    v.push((format!("count={}", n + 1), with_hdr(f, None, None, None, Some(n + 1)), Expect::Either));
+    v.push(("count=4294967295".into(), with_hdr(f, None, None, None, Some(u32::MAX)), Expect::Either));
+    v.push(("time=0".into(), with_hdr(f, Some(0), None, None, None), Expect::Either));
+    v.push(("time=9223372036854775807".into(), with_hdr(f, Some(i64::MAX as u64), None, None, None), Expect::Either));
+    v.push(("time=9223372036854775808".into(), with_hdr(f, Some(1 << 63), None, None, None), Expect::Either));
+    v.push(("time=18446744073709551615".into(), with_hdr(f, Some(u64::MAX), None, None, None), Expect::Either));
+    v.push(("idoffset+1".into(), with_hdr(f, None, Some(u32::from_be_bytes(f[8..12].try_into().unwrap()).wrapping_add(1)), None, None), Expect::Either));
+    v.push(("all-zero".into(), vec![0u8; f.len()], Expect::Either));
+    v.push(("all-ff".into(), vec![0xffu8; f.len()], Expect::Either));
+    let mut k = f.to_vec();
+    let last = k.len() - 1;
+    k[last] ^= 0x01;
+    v.push(("last-key-byte^01".into(), k, Expect::Either));
+    let mut k = f.to_vec();
+    k[20] ^= 0x80;
+    v.push(("first-key-byte^80".into(), k, Expect::Either));
+    let mut long = f.to_vec();
+    long.extend(std::iter::repeat_n(0x5a, 1000));
+    v.push(("healthy+1000-trailing-bytes".into(), long, Expect::Either));
+    v.push(("garbage-1000-bytes".into(), (0..1000u32).map(|i| (i.wrapping_mul(97) >> 2) as u8 | 1).map(|b| b & 0x7f).collect(), Expect::Either));
+    v
+}
+
+async fn run_all(env: &Env<'_>) {
+    let ctx = env.ctx;
+    let thorough = !ctx.quick();
+
+    // ---- rotate (first, its provider thread needs ~1 s to wind down) ----
+    let rotate_done = {
+        let path = env.path("rotate");
+        ctx.inc("evaluations");
+        ctx.inc("daemon_starts");
+        match start(&path, 7, 1).await {
+            Err(e) => {
+                ctx.violation("C27:daemon-start-fails", format!("rotate: {e}"), "rotate;live");
+            }
+            Ok(mut st) => {
+                let s0 = use_keyset(&env.rig, &st.keyset).await;
+                let waited = tokio::time::timeout(Duration::from_secs(30), st.rx.changed()).await;
+                match (s0, waited) {
+                    (Ok(s0), Ok(Ok(()))) => {
+                        let k1 = st.rx.borrow_and_update().clone();
+                        let copy = std::fs::read(&path).unwrap_or_default();
+                        ctx.inc("daemon_rotations_observed");
+                        let s1 = use_keyset(&env.rig, &k1).await;
+                        // cookie of before the rotation under the rotated set
+                        let carried = serve(&k1, &s0, &s0.cookies[1]);
+                        if !matches!(carried, Served::Accepted(_)) {
+                            ctx.violation("C27:rotation-drops-valid-cookie", format!("cookie of before the daemon's rotation (7 stale keys): {}", carried.short()), "rotate;live");
+                        }
+                        drop(st);
+                        match s1 {
+                            Ok(s1) => {
+                                let old: Vec<(bool, &Session)> = vec![(true, &s0), (true, &s1)];
+                                let o = file_case(env, "rotate", "restart-after-daemon-rotation", Some(&copy), 7, &old, Expect::Restored).await;
+                                ctx.sample(format!("rotate: file copied after the daemon's own rotation ({} bytes), restart -> {o}", copy.len()));
+                            }
+                            Err(e) => ctx.violation("C27:loaded-set-unusable", format!("rotated key set: {e}"), "rotate;live"),
+                        }
+                    }
+                    (Err(e), _) => ctx.violation("C27:loaded-set-unusable", format!("rotate: first key set: {e}"), "rotate;live"),
+                    (_, w) => ctx.cap_hit(&format!("rotate scenario: no rotation observed within 30 s ({w:?}); not judged")),
+                }
+            }
+        }
+        Instant::now()
+    };
+
+    // ---- create + restart ----
+    {
+        let path = env.path("create");
+        ctx.inc("evaluations");
+        ctx.inc("daemon_starts");
+        ctx.inc("create_cases");
+        match start(&path, 1, FOREVER).await {
+            Err(e) => ctx.violation("C27:daemon-start-fails", format!("create: {e}"), "create;none"),
+            Ok(st) => {
+                let mode = mode_of(&path);
+                ctx.inc("created_files");
+                if mode == Some(0o600) {
+                    ctx.inc("created_files_mode_0600");
+                } else {
+                    ctx.violation("C27:key-file-mode", format!("newly created key file has mode {:o}, expected exactly 600", mode.unwrap_or(0)), "create;none");
+                }
+                match file_image(&path) {
+                    Ok((1, _)) => {}
+                    Ok((n, b)) => ctx.violation("C27:store-leaves-bad-file", format!("fresh provider stored {n} keys / {} bytes", b.len()), "create;none"),
+                    Err(e) => ctx.violation("C27:store-leaves-bad-file", format!("create: {e}"), "create;none"),
+                }
+                match use_keyset(&env.rig, &st.keyset).await {
+                    Err(e) => ctx.violation("C27:loaded-set-unusable", format!("fresh key set: {e}"), "create;none"),
+                    Ok(s) => {
+                        ctx.inc("keysets_used_ok");
+                        let image = std::fs::read(&path).unwrap_or_default();
+                        drop(st);
+                        // restart on the very file the daemon wrote
+                        let o = file_case(env, "restart", "file-written-by-daemon", Some(&image), 1, &[(true, &s)], Expect::Restored).await;
+                        ctx.sample(format!("create: mode {:o}, {} bytes; restart -> {o}", mode.unwrap_or(0), image.len()));
+                    }
+                }
+            }
+        }
+        // plain creation through the generic path as well (mode judged there too)
+        let o = file_case(env, "create", "no-file", None, 3, &[], Expect::Either).await;
+        ctx.sample(format!("create (no file, 3 stale keys): {o}"));
+    }
+
+    // ---- multi-key restart ----
+    {
+        let (bytes, sessions) = healthy(env, 2, 3).await;
+        let old: Vec<(bool, &Session)> = sessions.iter().map(|(r, s)| (3 - r <= 2, s)).collect();
+        let o = file_case(env, "restart", "3-keys-history-2-after-3-rotations", Some(&bytes), 2, &old, Expect::Restored).await;
+        ctx.sample(format!("multi: {o}"));
+        // the same file, permissive mode bits beforehand: still restored (only a warning)
+        let o = file_case(env, "restart", "3-keys-again", Some(&bytes), 2, &old, Expect::Restored).await;
+        let _ = o;
+    }
+
+    // ---- crash points: every prefix of a stored file ----
+    {
+        let mut bases = vec![healthy(env, 0, 0).await];
+        if thorough {
+            bases.push(healthy(env, 1, 1).await);
+        }
+        for (bytes, sessions) in &bases {
+            let old: Vec<(bool, &Session)> = sessions.iter().map(|(_, s)| (true, s)).collect();
+            for k in 0..bytes.len() {
+                let o = file_case(env, "crash", &format!("prefix-{k}-of-{}", bytes.len()), Some(&bytes[..k]), 1, &old, Expect::Fresh).await;
+                if k == 0 || k == 20 || k + 1 == bytes.len() {
+                    ctx.sample(format!("crash prefix {k}/{}: {o}", bytes.len()));
+                }
+            }
+            let o = file_case(env, "crash", &format!("complete-{}", bytes.len()), Some(bytes), 1, &old, Expect::Restored).await;
+            let _ = o;
+        }
+    }
+
+    // ---- corrupt classes ----
+    {
+        let (bytes, sessions) = healthy(env, 1, 1).await;
+        let old: Vec<(bool, &Session)> = sessions.iter().map(|(_, s)| (true, s)).collect();
+        for (name, file, expect) in corrupt_classes(&bytes) {
+            // corrupted files may legitimately keep some keys and lose others: old cookies are
+            // served for crash/panic detection, their validity is not judged (Expect::Either)
+            let o = file_case(env, "corrupt", &name, Some(&file), 1, &old, expect).await;
+            ctx.sample(format!("corrupt {name}: {o}"));
+        }
+        if thorough {
+            let (bytes1, _) = healthy(env, 0, 0).await;
+            for (name, file, expect) in corrupt_classes(&bytes1) {
+                file_case(env, "corrupt", &format!("1key:{name}"), Some(&file), 0, &[], expect).await;
+            }
+        }
+    }
+
+    // ---- store cannot succeed ----
+    {
+        ctx.inc("evaluations");
+        ctx.inc("daemon_starts");
+        ctx.inc("unwritable_cases");
+        let path = env.dir.join("no-such-dir").join("keys");
+        match start(&path, 1, FOREVER).await {
+            Err(e) => ctx.violation("C27:daemon-start-fails", format!("missing directory: {e}"), "unwritable;missing-dir"),
+            Ok(st) => {
+                if let Some(p) = st.panicked {
+                    ctx.violation("C27:load-panic", format!("missing directory: panic {p}"), "unwritable;missing-dir");
+                }
+                match use_keyset(&env.rig, &st.keyset).await {
+                    Ok(_) => ctx.inc("keysets_used_ok"),
+                    Err(e) => ctx.violation("C27:loaded-set-unusable", format!("missing directory: {e}"), "unwritable;missing-dir"),
+                }
+            }
+        }
+        ctx.inc("evaluations");
+        ctx.inc("daemon_starts");
+        ctx.inc("unwritable_cases");
+        let dirpath = env.dir.join("is-a-directory");
+        std::fs::create_dir_all(&dirpath).unwrap();
+        match start(&dirpath, 1, FOREVER).await {
+            Err(e) => ctx.violation("C27:daemon-start-fails", format!("path is a directory: {e}"), "unwritable;is-dir"),
+            Ok(st) => {
+                if let Some(p) = st.panicked {
+                    ctx.violation("C27:load-panic", format!("path is a directory: panic {p}"), "unwritable;is-dir");
+                }
+                match use_keyset(&env.rig, &st.keyset).await {
+                    Ok(_) => ctx.inc("keysets_used_ok"),
+                    Err(e) => ctx.violation("C27:loaded-set-unusable", format!("path is a directory: {e}"), "unwritable;is-dir"),
+                }
+            }
+        }
+    }
+
+    // let the 1 s-interval provider thread of the rotate scenario finish its last round
+    let since = rotate_done.elapsed();
+    if since < Duration::from_millis(2500) {
+        tokio::time::sleep(Duration::from_millis(2500) - since).await;
+    }
+}
+
+// ---------------------------------------------------------------------------------
+// replay: "<kind>;<name>" re-creates the named file class and runs that one case
+// ---------------------------------------------------------------------------------
+
+async fn replay_one(env: &Env<'_>, trace: &str) -> String {
+    let (kind, name) = trace.split_once(';').unwrap_or((trace, ""));
+    match kind {
+        "crash" => {
+            // prefix-K-of-N | complete-N
+            let nums: Vec<usize> = name.split('-').filter_map(|p| p.parse().ok()).collect();
+            let total = *nums.last().unwrap_or(&84);
+            let (bytes, sessions) = if total <= 84 { healthy(env, 0, 0).await } else { healthy(env, 1, 1).await };
+            let old: Vec<(bool, &Session)> = sessions.iter().map(|(_, s)| (true, s)).collect();
+            if name.starts_with("prefix") {
+                let k = nums.first().copied().unwrap_or(0).min(bytes.len());
+                file_case(env, "crash", "replay", Some(&bytes[..k]), 1, &old, Expect::Fresh).await
+            } else {
+                file_case(env, "crash", "replay", Some(&bytes), 1, &old, Expect::Restored).await
+            }
+        }
+        "corrupt" => {
+            let (one, cname) = match name.strip_prefix("1key:") {
+                Some(c) => (true, c),
+                None => (false, name),
+            };
+            let (bytes, _) = if one { healthy(env, 0, 0).await } else { healthy(env, 1, 1).await };
+            match corrupt_classes(&bytes).into_iter().find(|c| c.0 == cname) {
+                Some((_, file, expect)) => file_case(env, "corrupt", "replay", Some(&file), if one { 0 } else { 1 }, &[], expect).await,
+                None => "unknown corrupt class".into(),
+            }
+        }
+        "create" => file_case(env, "create", "replay", None, 1, &[], Expect::Either).await,
+        "restart" => {
+            let (bytes, sessions) = healthy(env, 2, 3).await;
+            let old: Vec<(bool, &Session)> = sessions.iter().map(|(r, s)| (3 - r <= 2, s)).collect();
+            file_case(env, "restart", "replay", Some(&bytes), 2, &old, Expect::Restored).await
+        }
+        _ => "trace kind not replayable (rotate/unwritable scenarios are timing/fs bound): run the check".into(),
+    }
+}
+
+fn scratch_dir() -> PathBuf {
+    PathBuf::from(format!("/verif/work/c27-{}", std::process::id()))
+}
+
+#[test]
+fn check() {
+    let ctx = Ctx::new("C27");
+    install_panic_counter();
+    let dir = scratch_dir();
+    let _ = std::fs::remove_dir_all(&dir);
+    std::fs::create_dir_all(&dir).expect("scratch dir under /verif/work");
+    // real time: the provider thread sleeps with std::thread::sleep
+    let rt = tokio::runtime::Builder::new_current_thread().enable_all().build().expect("runtime");
+    let env = Env { ctx: &ctx, rig: rig(), dir: dir.clone(), next: std::cell::Cell::new(0) };
+
+    if let Some(t) = common::replay_trace() {
+        let a = rt.block_on(replay_one(&env, &t));
+        let b = rt.block_on(replay_one(&env, &t));
+        rt.shutdown_background();
+        let _ = std::fs::remove_dir_all(&dir);
+        common::report_replay("C27", &a, &b, ctx.violation_count() > 0);
+        return;
+    }
+    ctx.rule(
+        "ntpd part, real file system: one start of the real nts_key_provider::spawn per case. Cases: no file (creation, mode), restart on \
+         the daemon's own file, restart on a 3-key file with sessions of ages 0..=3, restart after the daemon's own 1 s rotation, EVERY \
+         prefix of a stored 1-key file (thorough: and of a 2-key file), 19 named corrupt-file classes (thorough: for a 1-key and a 2-key \
+         file), missing directory, path is a directory. Every published key set is used through a real NTS-KE handshake and a real \
+         Server::handle round trip (twice). Distinct & non-trivial = a distinct file content handed to a daemon start.",
+    );
+    ctx.assume("a panic in any thread of the test process during a case is attributed to that case (one test thread, cases run sequentially)");
+    ctx.assume("the repository's test certificates (ntpd/test-keys) are valid at the time of the run");
+    ctx.assume("crash points are modelled as prefixes because the daemon opens the key file with truncate(true) and writes it front to back; checked here only through the absence of a stale tail after overwriting longer files");
+    rt.block_on(run_all(&env));
+    rt.shutdown_background();
+    if std::fs::remove_dir_all(&dir).is_err() {
+        // a late writer may have re-created a file; once more
+        std::thread::sleep(Duration::from_millis(200));
+        let _ = std::fs::remove_dir_all(&dir);
+    }
+    ctx.exhaustive(true);
+    ctx.finish();
+}
